@@ -852,6 +852,8 @@ func (w *World) finalize(r *Replica, req *abci.RequestFinalizeBlock) (resp *abci
 			w.Halt = &Halt{Replica: r.ID, Height: req.Height, Phase: "FinalizeBlock", Err: fmt.Sprint(e), Stack: string(stack())}
 		}
 	}()
+	wd := stallWatch("FinalizeBlock", r.ID, req.Height)
+	defer wd.Stop()
 	resp, err := r.App.FinalizeBlock(req)
 	if err != nil {
 		w.Halt = &Halt{Replica: r.ID, Height: req.Height, Phase: "FinalizeBlock", Err: err.Error()}
